@@ -22,6 +22,7 @@ type Session struct {
 	participantIDs   SequentialIDGenerator
 	participantMutex sync.RWMutex
 	participants     map[uint32]*Participant
+	closed           bool
 
 	entityIDs   SequentialIDGenerator
 	entityMutex sync.RWMutex
@@ -67,11 +68,32 @@ func (s *Session) NewParticipantID() uint32 {
 	return s.participantIDs.New()
 }
 
-func (s *Session) AddParticipant(p *Participant) {
+// AddParticipant adds the participant to the session. It reports false,
+// without adding it, when the session has already been closed by
+// CloseIfEmpty.
+func (s *Session) AddParticipant(p *Participant) bool {
 	s.participantMutex.Lock()
 	defer s.participantMutex.Unlock()
 
+	if s.closed {
+		return false
+	}
 	s.participants[p.ID] = p
+	return true
+}
+
+// CloseIfEmpty marks the session as closed when no participant is left, so
+// that no participant can be added anymore. It reports whether this call
+// closed the session: among concurrent callers exactly one gets true.
+func (s *Session) CloseIfEmpty() bool {
+	s.participantMutex.Lock()
+	defer s.participantMutex.Unlock()
+
+	if s.closed || len(s.participants) != 0 {
+		return false
+	}
+	s.closed = true
+	return true
 }
 
 func (s *Session) RemoveParticipant(p *Participant) {
